@@ -16,6 +16,20 @@ use rml_rtmp::time::RtmpTimestamp;
 use serde::{Deserialize, Serialize};
 use std::collections::{BTreeMap, BTreeSet};
 
+/// The stream id a createStream result returns: small for most indices, and for the top of the
+/// range ids that do not fit 8, 16, 24 or 31 bits (a server may number its streams as it likes).
+pub fn returned_stream_id(s: u8) -> u32 {
+    match s {
+        250 => 255,
+        251 => 256,
+        252 => 65_536,
+        253 => 0x0100_0000,
+        254 => 0x8000_0000,
+        255 => 0xFFFF_FFFF,
+        x => x as u32 + 1,
+    }
+}
+
 #[derive(Clone, Debug, Serialize, Deserialize, PartialEq)]
 pub enum TidRef {
     Outstanding(u16),
@@ -379,7 +393,7 @@ fn eval_inner(case: &Case, clock: &Clock, ex: &mut Exec, age: &mut u64) -> Verdi
         // a stream other than the active one: three choices by position, among them message stream 0
         // (the control stream; "no active stream" must not behave like "active on stream 0") and 1
         let other_stream = |m: &Model| {
-            let cands = [m.active.map(|a| a + 3).unwrap_or(9), 0, 1];
+            let cands = [m.active.map(|a| a.wrapping_add(3)).unwrap_or(9), 0, 1];
             let c = cands[idx % 3];
             if Some(c) == m.active { cands[0] } else { c }
         };
@@ -404,7 +418,7 @@ fn eval_inner(case: &Case, clock: &Clock, ex: &mut Exec, age: &mut u64) -> Verdi
                     args.push(obj(vec![("level", st("status")), ("code", st("NetConnection.Connect.Success")), ("description", st("ok")), ("objectEncoding", num(0.0))]));
                 }
                 if let Some(s) = stream {
-                    args.insert(0, num(*s as f64 + 1.0));
+                    args.insert(0, num(returned_stream_id(*s) as f64));
                 }
                 Concrete::Peer { rm: command("_result", t, object, args), msid: 0, ts: peer_ts, cut: *cut, chunk: None }
             }
@@ -622,7 +636,7 @@ fn eval_inner(case: &Case, clock: &Clock, ex: &mut Exec, age: &mut u64) -> Verdi
                             judged += 1;
                         }
                         (tx, true) if stream.is_some() => {
-                            let sid = stream.unwrap() as u32 + 1;
+                            let sid = returned_stream_id(stream.unwrap());
                             if state_known && model.st == St::Connected {
                                 vensure!(o.err.is_none(), "{}: createStream result failed: {:?}", at, o.err);
                                 match &tx {
@@ -817,7 +831,7 @@ pub fn cop() -> BoxedStrategy<COp> {
         3 => (0u16..300, gen::edge_u32(), any::<bool>()).prop_map(|(len, ts, drop)| COp::PublishAudio { len, ts, drop }),
         2 => (0u16..300, gen::edge_u32(), any::<bool>()).prop_map(|(len, ts, drop)| COp::PublishVideo { len, ts, drop }),
         1 => Just(COp::SendPing),
-        9 => (tid_ref(), prop_oneof![5 => (0u8..4).prop_map(Some), 1 => Just(None)]).prop_map(|(tid, stream)| COp::Result { tid, stream }),
+        9 => (tid_ref(), prop_oneof![5 => (0u8..4).prop_map(Some), 1 => (250u8..=255).prop_map(Some), 1 => Just(None)]).prop_map(|(tid, stream)| COp::Result { tid, stream }),
         2 => tid_ref().prop_map(|tid| COp::Error { tid }),
         6 => prop_oneof![4 => Just(0u8), 4 => Just(1u8), 1 => Just(2u8), 1 => 3u8..6].prop_map(|kind| COp::OnStatus { kind }),
         3 => (prop::bool::weighted(0.8), gen::edge_u32(), 0u16..300).prop_map(|(active, ts, len)| COp::Audio { active, ts, len }),
